@@ -43,14 +43,19 @@ template <class T> static void verif_use(const T &) {}
 
 // read-side members every scalar-like view has (physical scalars and virtual fields)
 template <class F> static void verif_scalar_ro(F f) {
-  auto x = f.UncheckedRead();
+  // Unchecked calls are named (instantiated) but never executed
+  auto x = verif_never ? f.UncheckedRead() : decltype(f.UncheckedRead())();
   if (f.Ok()) x = f.Read();
   verif_use(x);
   verif_use(F::IsAggregate());
-  std::string s = ::emboss::WriteToString(f);
-  s += ::emboss::WriteToString(f, ::emboss::MultilineText());
-  s += ::emboss::WriteToString(f, ::emboss::TextOutputOptions().WithNumericBase(16).WithDigitGrouping(true).WithComments(true));
-  verif_use(s);
+#ifndef VERIF_NO_TEXT
+  if (f.Ok()) {  // text output of a value needs a readable value
+    std::string s = ::emboss::WriteToString(f);
+    s += ::emboss::WriteToString(f, ::emboss::MultilineText());
+    s += ::emboss::WriteToString(f, ::emboss::TextOutputOptions().WithNumericBase(16).WithDigitGrouping(true).WithComments(true));
+    verif_use(s);
+  }
+#endif
 }
 // physical scalar views additionally report completeness and width
 template <class F> static void verif_physical_ro(F f) {
@@ -58,14 +63,16 @@ template <class F> static void verif_physical_ro(F f) {
   verif_use(f.IsComplete());
 }
 // UInt, Int and Bcd views document SizeInBits()
-template <class F> static void verif_physical_sized(F f) { verif_use(f.SizeInBits()); typename F::ValueType x = f.UncheckedRead(); verif_use(x); }
+template <class F> static void verif_physical_sized(F f) { verif_use(f.SizeInBits()); typename F::ValueType x = typename F::ValueType(); if (verif_never) x = f.UncheckedRead(); verif_use(x); }
 // write-side members (physical scalars over writable storage, writable virtual fields)
 template <class F> static void verif_scalar_rw(F f) {
-  auto x = f.UncheckedRead();
+  auto x = verif_never ? f.UncheckedRead() : decltype(f.UncheckedRead())();
   verif_use(f.CouldWriteValue(x));
   if (f.Ok()) verif_use(f.TryToWrite(f.Read()));
   if (verif_never) { f.Write(x); f.UncheckedWrite(x); }
+#ifndef VERIF_NO_TEXT
   if (f.Ok()) { std::string s = ::emboss::WriteToString(f); ::emboss::support::TextStream ts(s); verif_use(f.UpdateFromTextStream(&ts)); }
+#endif
 }
 """
 
@@ -82,10 +89,14 @@ def cpp_int(v):
 
 
 class IrDriver(object):
-    def __init__(self, ir, enum_traits=True):
+    def __init__(self, ir, text=True):
+        """text=False: the header was generated without enum traits, so it has no
+        text methods and no enum helpers; none of them is named."""
         self.ir = ir
         self.mod = ir.module[0]
-        self.traits = enum_traits
+        self.traits = text
+        self.text = text
+        self.in_bits = False
         self.decls = []
         self.body = []  # statements inside main()
         self.fn_names = {}
@@ -261,9 +272,10 @@ class IrDriver(object):
             a = "verif_a%d" % level
             L.append("%s{ auto %s = %s; verif_use(%s.Ok()); verif_use(%s.IsComplete()); verif_use(%s.ElementCount());" % (pad, a, expr, a, a, a))
             L.append("%s  verif_use(%s.BackingStorage());" % (pad, a))
-            L.append("%s  verif_use(::emboss::WriteToString(%s)); verif_use(::emboss::WriteToString(%s, ::emboss::MultilineText()));" % (pad, a, a))
-            L.append("%s  if (kWritable) verif_text_rw_if<kWritable>(%s);" % (pad, a))
-            L.append("%s  verif_use(%s.Equals(%s)); verif_use(%s.UncheckedEquals(%s));" % (pad, a, a, a, a))
+            if self.text:
+                L.append("%s  if (%s.Ok()) { verif_use(::emboss::WriteToString(%s)); verif_use(::emboss::WriteToString(%s, ::emboss::MultilineText())); }" % (pad, a, a, a))
+                L.append("%s  if (kWritable) verif_text_rw_if<kWritable>(%s);" % (pad, a))
+            L.append("%s  if (%s.Ok()) verif_use(%s.Equals(%s)); if (verif_never) verif_use(%s.UncheckedEquals(%s));" % (pad, a, a, a, a, a))
             if not self.in_bits:  # the runtime's array iterators need assignable, comparable element storage, which bit storage is not
                 L.append("%s  for (auto verif_it%d = %s.begin(); verif_it%d != %s.end(); ++verif_it%d) { verif_use((*verif_it%d).Ok()); break; }" % (pad, level, a, level, a, level, level))
                 L.append("%s  for (auto verif_rit%d = %s.rbegin(); verif_rit%d != %s.rend(); ++verif_rit%d) { verif_use((*verif_rit%d).Ok()); break; }" % (pad, level, a, level, a, level, level))
@@ -298,12 +310,13 @@ class IrDriver(object):
         L.append("  verif_use(v.IntrinsicSizeIn%s().Ok()); if (v.IntrinsicSizeIn%s().Ok()) verif_use(v.IntrinsicSizeIn%s().Read());" % (units, units, units))
         L.append("  verif_use(v.MaxSizeIn%s().Read()); verif_use(v.MinSizeIn%s().Read());" % (units, units))
         L.append("  verif_use(V::IsAggregate()); verif_use(v.BackingStorage());")
-        L.append("  verif_use(v.Equals(v)); verif_use(v.UncheckedEquals(v));")
+        L.append("  if (v.Ok()) verif_use(v.Equals(v)); if (verif_never) verif_use(v.UncheckedEquals(v));")
         if not is_bits:  # cpp-reference documents the CopyFrom family for struct views only
             L.append("  if (kWritable) verif_copy_if<kWritable>(v);")
-        L.append("  { std::string s = ::emboss::WriteToString(v); s += ::emboss::WriteToString(v, ::emboss::MultilineText());")
-        L.append("    s += ::emboss::WriteToString(v, ::emboss::TextOutputOptions().WithAllowPartialOutput(true).WithComments(true).WithNumericBase(2).WithDigitGrouping(true).Multiline(true).WithIndent(\" \"));")
-        L.append("    verif_use(s); if (kWritable) verif_text_rw_if<kWritable>(v); }")
+        if self.text:
+            L.append("  { std::string s; if (v.Ok()) { s = ::emboss::WriteToString(v); s += ::emboss::WriteToString(v, ::emboss::MultilineText()); }")
+            L.append("    s += ::emboss::WriteToString(v, ::emboss::TextOutputOptions().WithAllowPartialOutput(true).WithComments(true).WithNumericBase(2).WithDigitGrouping(true).Multiline(true).WithIndent(\" \"));")
+            L.append("    verif_use(s); if (kWritable) verif_text_rw_if<kWritable>(v); }")
         L.append("  { V verif_copy(v); verif_use(verif_copy.Ok()); }")
         for f in st.field:
             if f.name.is_anonymous:
@@ -364,7 +377,7 @@ class IrDriver(object):
             L.append("    auto vs = %s::Make%sView(%s&str); verif_use(vs.Ok()); const std::string &cstr = str; auto vcs = %s::Make%sView(%s&cstr); verif_use(vcs.Ok());" % (scope, name, pre, scope, name, pre))
             L.append("    auto al = %s::MakeAligned%sView<unsigned char, 8>(%sbuf, sizeof buf); verif_use(al.Ok()); %s<true>(al, 2);" % (scope, name, pre, fn))
             L.append("    %s::%sView ro(%sVerifRO(buf, sizeof buf)); %s::%sWriter rw(%sVerifRW(buf, sizeof buf));" % (scope, name, pre, scope, name, pre))
-            L.append("    %s::%sView ro2 = rw; ro2 = rw; verif_use(ro2.Ok()); verif_use(ro.Equals(rw)); verif_use(rw.Equals(ro)); verif_use(rw.TryToCopyFrom(ro));" % (scope, name))
+            L.append("    %s::%sView ro2 = rw; ro2 = rw; verif_use(ro2.Ok()); if (ro.Ok()) { verif_use(ro.Equals(rw)); verif_use(rw.Equals(ro)); } verif_use(rw.TryToCopyFrom(ro));" % (scope, name))
             L.append("    %s::%sView dflt; verif_use(dflt.Ok()); verif_use(dflt.IsComplete());" % (scope, name))
             view_t = "%s::%sView" % (scope, name)
         # constants
@@ -433,19 +446,21 @@ class IrDriver(object):
         helpers = r"""
 template <bool W, class F> static typename std::enable_if<W>::type verif_rw_if(F f) { verif_scalar_rw(f); }
 template <bool W, class F> static typename std::enable_if<!W>::type verif_rw_if(F) {}
+#ifndef VERIF_NO_TEXT
 template <bool W, class V> static typename std::enable_if<W>::type verif_text_rw_if(V v) {
   std::string s = ::emboss::WriteToString(v, ::emboss::TextOutputOptions().WithAllowPartialOutput(true));
   verif_use(::emboss::UpdateFromText(v, s)); verif_use(::emboss::UpdateFromText(v, std::string("{}")));
   ::emboss::support::TextStream verif_ts(s); verif_use(v.UpdateFromTextStream(&verif_ts));
 }
 template <bool W, class V> static typename std::enable_if<!W>::type verif_text_rw_if(V) {}
+#endif
 template <bool W, class V> static typename std::enable_if<W>::type verif_copy_if(V v) {
   verif_use(v.TryToCopyFrom(v)); if (verif_never) { v.CopyFrom(v); v.UncheckedCopyFrom(v); }
 }
 template <bool W, class V> static typename std::enable_if<!W>::type verif_copy_if(V) {}
 static int verif_static_constants = 0;
 """
-        parts = ['#include "%s"' % header_name, '#include "%s"' % header_name, PRELUDE, helpers]
+        parts = ([] if self.text else ["#define VERIF_NO_TEXT 1", "#define VERIF_NO_ENUM_TRAITS 1"]) + ['#include "%s"' % header_name, '#include "%s"' % header_name, PRELUDE, helpers]
         parts += self.decls
         parts += fns
         parts.append("int verif_other_tu();")
